@@ -219,6 +219,12 @@ fn structural_cases(text: &str, out: &mut Vec<Case>) {
                         absdoc::esc_attr(uri, &mut esc);
                         let s2 = splice(&s1, t.name.1, 0, &format!(" xmlns:zs=\"{}\"", esc));
                         push("end-tag-with-synonymous-prefix", s2, Expect::Reject);
+                        // the synonym is the default namespace: prefixed start tag, unprefixed end tag
+                        if text[t.name.0..t.name.1].contains(':') {
+                            let s1 = splice(text, e.2 .0, e.2 .1 - e.2 .0, &res[si].local);
+                            let s2 = splice(&s1, t.name.1, 0, &format!(" xmlns=\"{}\"", esc));
+                            push("end-tag-unprefixed-for-prefixed-start-tag", s2, Expect::Reject);
+                        }
                     }
                 }
             }
@@ -433,8 +439,9 @@ fn structural_cases(text: &str, out: &mut Vec<Case>) {
         push("dtd", splice(text, sp.root_start, 0, "<!DOCTYPE a>"), Expect::Reject);
         push("dtd-internal-subset", splice(text, sp.root_start, 0, "<!DOCTYPE a [<!ENTITY e \"v\">]>"), Expect::Reject);
         if !text.starts_with("<?xml") {
-            push("version-1.1", format!("<?xml version=\"1.1\"?>{}", text), Expect::Reject);
-            push("version-2.0", format!("<?xml version=\"2.0\"?>{}", text), Expect::Reject);
+            for ver in ["1.1", "2.0", "1.2", "1.00", "1.10", "1.", "1", "01.0", "1.0 ", "1.0a", "1,0", ""] {
+                push(&format!("version-{}", ver), format!("<?xml version=\"{}\"?>{}", ver, text), Expect::Reject);
+            }
             push("declaration-not-first", format!(" <?xml version=\"1.0\"?>{}", text), Expect::Reject);
             push("no-root", "<!--only a comment-->".to_string(), Expect::RejectAsDocument);
         }
@@ -507,6 +514,23 @@ fn encoded_cases(text: &str, out: &mut Vec<Case>) {
     out.push(mk("encoding-utf16be-bom", be, Expect::Any));
     le.pop();
     out.push(mk("encoding-utf16le-odd-length", le, Expect::Any));
+    // UTF-32 LE / BE with BOM, whole and cut inside a code unit
+    let mut le32 = vec![0xFF, 0xFE, 0x00, 0x00];
+    let mut be32 = vec![0x00, 0x00, 0xFE, 0xFF];
+    for c in body.chars() {
+        le32.extend_from_slice(&(c as u32).to_le_bytes());
+        be32.extend_from_slice(&(c as u32).to_be_bytes());
+    }
+    out.push(mk("encoding-utf32le-bom", le32.clone(), Expect::Any));
+    out.push(mk("encoding-utf32be-bom", be32.clone(), Expect::Any));
+    for cut in 1..4 {
+        le32.pop();
+        be32.pop();
+        out.push(mk(&format!("encoding-utf32le-cut-{}", cut), le32.clone(), Expect::Any));
+        out.push(mk(&format!("encoding-utf32be-cut-{}", cut), be32.clone(), Expect::Any));
+    }
+    out.push(mk("encoding-utf32le-bom-one-byte", vec![0xFF, 0xFE, 0x00, 0x00, 0x3C], Expect::Any));
+    out.push(mk("encoding-utf32be-bom-one-byte", vec![0x00, 0x00, 0xFE, 0xFF, 0x00], Expect::Any));
     if !body.starts_with("<?xml") {
         for label in ["ISO-8859-1", "US-ASCII", "UTF-8", "utf-8", "windows-1252", "UTF-16", "no-such-encoding", "", "UTF-7", "ebcdic-cp-us", "x\"y"] {
             let s = format!("<?xml version=\"1.0\" encoding=\"{}\"?>{}", label, body);
